@@ -52,6 +52,7 @@ func main() {
 	only := flag.String("only", "", "behave: only this shape / corpus: only testdata dirs containing this string")
 	vfrac := flag.Int("vfrac", 35, "corpus: percent of the fix-offering checks' testdata dirs taken per variant kind")
 	vers := flag.String("vers", "", "corpus: only testdata of this Go version directory (e.g. go1.0), or all but it with a leading !")
+	cacheFlag := flag.String("cache", "", "analysis cache directory shared by the parallel jobs of ONE check run (fresh per run; default: <work>/cache)")
 	keep := flag.Bool("keep", false, "keep generated sources in the output (for replay)")
 	flag.Parse()
 	if *work == "" || *outp == "" {
@@ -61,6 +62,7 @@ func main() {
 	os.Setenv("VERIF_REPO", *repo)
 	hx.GoEnv()
 	rnd := hx.NewRand(*seed)
+	sharedCache = *cacheFlag
 	switch *mode {
 	case "corpus":
 		runCorpus(*repo, *work, rnd, *variants, *repopkgs, *only, *vfrac, *vers)
